@@ -134,6 +134,22 @@ package samlsp
 //@ assert@call[C17] io.ReadFull #1 (r io.Reader, buf []byte) uses rv []byte fills_all_from_configured_source:
 //@    r == saml.RandReader && sameBytes(buf, rv) && len(buf) == n
 
+//@ -- starting a flow: the request is built for the binding it is then emitted with (POST-binding requests are the ones the
+//@ -- core signs envelopedly, redirects are signed over the query), towards that binding's endpoint; the tracked ID is the
+//@ -- request's; the relay state handed to the emitter is the tracker's
+//@ contract (*Middleware).HandleStartAuthFlow
+//@ requires[cfg] m: middlewareConfigured(m)
+//@ requires[cfg] r: r != nil && r.URL != nil && w != nil
+//@ requires[cfg] sp: m.ServiceProvider.IDPMetadata != nil && (len(m.ServiceProvider.SignatureMethod) == 0 || m.ServiceProvider.Certificate != nil)
+//@ assert@call[C12,C13,C17] MakeAuthenticationRequest #1 (s *saml.ServiceProvider, idpURL string, b string, rb string) uses binding string, bindingLocation string request_for_emitted_binding:
+//@    b == binding && idpURL == bindingLocation && rb == m.ResponseBinding && (binding == saml.HTTPRedirectBinding || binding == saml.HTTPPostBinding || binding == m.Binding)
+//@ assert@call[C17] TrackRequest #1 (t RequestTracker, w2 http.ResponseWriter, r2 *http.Request, id string) uses authReq *saml.AuthnRequest tracks_this_request:
+//@    authReq != nil && id == authReq.ID && r2 == r
+//@ assert@call[C12,C13] Redirect #1 (a *saml.AuthnRequest, rs string, s *saml.ServiceProvider) uses authReq *saml.AuthnRequest, binding string, relayState string redirect_emits_redirect_request:
+//@    a == authReq && binding == saml.HTTPRedirectBinding && rs == relayState
+//@ assert@call[C12,C13] Post #1 (a *saml.AuthnRequest, rs string) uses authReq *saml.AuthnRequest, binding string, relayState string post_emits_post_request:
+//@    a == authReq && binding == saml.HTTPPostBinding && rs == relayState
+
 //@ -- C16: the gatekeeping function literals. RequireAccount$1 is the handler RequireAccount returns;
 //@ -- RequireAttribute$1$1 the handler returned by the middleware RequireAttribute returns.
 //@ contract (*Middleware).RequireAccount$1
